@@ -601,22 +601,23 @@ def moment(
     if not isinstance(order, Integral) or order < 0:
         raise ValueError("Order must be an integer >= 0")
 
-    if order < 2:
-        reduced = a.sum(axis=axis)  # get reduced shape and chunks
-        if order == 0:
-            # When order equals 0, the result is 1, by definition.
-            return ones(
-                reduced.shape, chunks=reduced.chunks, dtype="f8", meta=reduced._meta
-            )
-        # By definition the first order about the mean is 0.
-        return zeros(
-            reduced.shape, chunks=reduced.chunks, dtype="f8", meta=reduced._meta
-        )
-
     if dtype is not None:
         dt = dtype
     else:
         dt = getattr(np.var(np.ones(shape=(1,), dtype=a.dtype)), "dtype", object)
+
+    if order < 2:
+        # get reduced shape and chunks
+        reduced = a.sum(axis=axis, keepdims=keepdims)
+        if order == 0:
+            # When order equals 0, the result is 1, by definition.
+            return ones(
+                reduced.shape, chunks=reduced.chunks, dtype=dt, meta=reduced._meta
+            )
+        # By definition the first order about the mean is 0.
+        return zeros(
+            reduced.shape, chunks=reduced.chunks, dtype=dt, meta=reduced._meta
+        )
 
     implicit_complex_dtype = dtype is None and np.iscomplexobj(a)
 
